@@ -1,12 +1,14 @@
 package engine
 
 import (
+	"os"
 	"fmt"
 	"go/constant"
 	"go/token"
 	"go/types"
 	"regexp"
 	"sort"
+	"strings"
 
 	"golang.org/x/tools/go/ssa"
 )
@@ -347,6 +349,44 @@ func runToStrCases(c *Ctx, rule string) {
 		bad = append(bad, "no fmt-based default rendering (%v) found")
 	}
 	c.Check(len(bad) == 0 && n > 0, rule, fnName(fn), "cases", fn.Pos(), fmt.Sprintf("%d basic-type cases, fmt %%v default", n), uniqJoin(bad, 3))
+	if rule == "C13-TOSTR" {
+		// the renderer is total on its own: called with ANY interface value (nil, nil pointers taken out of
+		// collections by Interface(), pointers to pointers) no reflect operation in it meets a receiver outside
+		// its precondition. It is handed elements of the caller's collections (in/unique/ints, map keys).
+		in0 := map[string]uint32{}
+		run := exploreWalkOpts(p, fn, in0, map[string]bool{fnName(fn): true}, nil, 5000)
+		var pbad, punk []string
+		if os.Getenv("PGV_DBG") != "" {
+			for at, s := range run.Env.Sites {
+				fmt.Println("DBG site", p.Pos(instrPos(at)), s.Method, s.Reached, s.Panics)
+			}
+			for _, t := range run.Traces {
+				fmt.Println("DBG trace cut=", t.Cut, "panic=", t.Panic, "conv=", t.Converged, len(t.Events))
+			}
+		}
+		for at, s := range run.Env.Sites {
+			for k := range s.Panics {
+				pbad = append(pbad, p.Pos(instrPos(at))+": reflect "+s.Method+" on a receiver that may be "+k)
+			}
+		}
+		for _, t := range run.Traces {
+			if t.Cut != "" {
+				punk = append(punk, t.Cut)
+			}
+			if t.Panic != "" && !strings.HasPrefix(t.Panic, "reflect ") {
+				pbad = append(pbad, p.Pos(instrPos(t.PanicAt))+": "+t.Panic)
+			}
+		}
+		c.Sites++
+		switch {
+		case len(pbad) > 0:
+			c.Bad(rule, fnName(fn), "total", fn.Pos(), "the renderer can panic for some argument: "+uniqJoin(pbad, 3))
+		case len(punk) > 0:
+			c.Unk(rule, fnName(fn), "total", fn.Pos(), uniqJoin(punk, 2))
+		default:
+			c.OK(rule, fnName(fn), "total", fn.Pos(), fmt.Sprintf("no reflect precondition can fail on %d paths with an arbitrary argument", len(run.Traces)))
+		}
+	}
 }
 
 // lossyIntConv: an integer conversion that cannot hold every value of its source on every platform
